@@ -104,8 +104,8 @@ class DimEnv:
                 return None if args[0] is None else tuple(x / 2 for x in args[0])
             if name == "cbrt":
                 return None if args[0] is None else tuple(x / 3 for x in args[0])
-            if name == "abs":
-                return args[0]
+            if name in ("abs", "fabs", "copysign"):
+                return args[0]     # (copysign takes only the sign of its second argument)
             if name in ("min", "max", "fmin", "fmax"):
                 return self.unify(args[0], args[1], t)
             if name == "clamp":
@@ -119,12 +119,18 @@ class DimEnv:
                 if args[0] not in (None, ZERO7):
                     raise DimError("pow of a dimensional value with a non-constant exponent", t)
                 return ZERO7
-            if name in ("acos", "asin", "atan", "cos", "sin", "tan", "exp", "log", "log2", "log10"):
+            if name in ("acos", "asin", "atan", "cos", "sin", "tan", "exp", "log", "log2", "log10", "exp2", "expm1", "log1p", "sinh", "cosh", "tanh",
+                        "asinh", "acosh", "atanh", "erf", "erfc", "tgamma", "lgamma"):
                 if args[0] not in (None, ZERO7):
                     raise DimError("%s of a dimensional value %s" % (name, fmt(args[0])), t)
                 return ZERO7
             if name == "atan2":
                 self.unify(args[0], args[1], t)
+                return ZERO7
+            if name in ("trunc", "floor", "ceil", "round", "nearbyint", "rint", "lround", "llround", "lrint", "llrint"):
+                # rounding to an integer does not commute with a change of units: only a pure number may be rounded
+                if args[0] not in (None, ZERO7):
+                    raise DimError("%s (conversion to an integer) of a dimensional value %s: the result depends on the unit of measure" % (name, fmt(args[0])), t)
                 return ZERO7
             raise Inconclusive("dimension of call to " + str(name))
         if k == "undef":
